@@ -195,20 +195,32 @@ fn parse_flush_script(s: &str) -> Result<VecDeque<FlushDir>, String> {
 }
 
 /// `| <init> | <init> ...` -> specs.  `toks` starts at the first `|` (or is empty).
+/// the in-place operation of message `i` (`<init> ~ <op>`): applied through the send guard before sending
+type Edits = Vec<Option<crate::probe::HOp>>;
+
 fn parse_inits(toks: &[&str]) -> Result<Vec<Spec>, String> {
+    parse_msgs(toks).map(|(s, _)| s)
+}
+
+fn parse_msgs(toks: &[&str]) -> Result<(Vec<Spec>, Edits), String> {
     let toks: Vec<&str> = toks.iter().copied().filter(|t| !t.is_empty()).collect();
     if toks.is_empty() {
-        return Ok(Vec::new());
+        return Ok((Vec::new(), Vec::new()));
     }
     if toks[0] != "|" {
         return Err(format!("expected | before the inits, found {:?}", toks[0]));
     }
     let mut out = Vec::new();
+    let mut edits = Vec::new();
     for group in toks.split(|t| *t == "|") {
         if group.is_empty() {
             continue;
         }
-        let text = group.join(" ");
+        let (ini, edit) = match group.iter().position(|t| *t == "~") {
+            Some(k) => (&group[..k], Some(&group[k + 1..])),
+            None => (group, None),
+        };
+        let text = ini.join(" ");
         let st = tokenize(&text);
         let mut p = 0;
         let spec = catch_unwind(AssertUnwindSafe(|| parse_spec(&st, &mut p))).map_err(|_| format!("bad init {:?}", text))?;
@@ -216,8 +228,16 @@ fn parse_inits(toks: &[&str]) -> Result<Vec<Spec>, String> {
             return Err(format!("trailing tokens in init {:?}", text));
         }
         out.push(spec);
+        edits.push(match edit {
+            None => None,
+            Some(e) => {
+                let st = tokenize(&e.join(" "));
+                let mut p = 0;
+                Some(catch_unwind(AssertUnwindSafe(|| crate::probe::parse_hop(&st, &mut p))).map_err(|_| format!("bad edit {:?}", e))?)
+            }
+        });
     }
-    Ok(out)
+    Ok((out, edits))
 }
 
 // ---------------------------------------------------------------- scripted read end
@@ -655,12 +675,12 @@ where
     }
     let max = parse_usize(args[0], "max_msg_len")?;
     let wscript = parse_script(args[1], 'a', false)?;
-    let specs = parse_inits(&args[2..])?;
+    let (specs, edits) = parse_msgs(&args[2..])?;
     let limit = 64 * specs.len() + wscript.len() + 16;
-    Ok(send_case::<T>(max, wscript, &specs, limit))
+    Ok(send_case::<T>(max, wscript, &specs, &edits, limit))
 }
 
-fn send_case<T: Probe + ?Sized>(max: usize, wscript: VecDeque<Dir>, specs: &[Spec], limit: usize) -> String
+fn send_case<T: Probe + ?Sized>(max: usize, wscript: VecDeque<Dir>, specs: &[Spec], edits: &Edits, limit: usize) -> String
 where
     for<'b> Dyn<'b>: Emplacer<T>,
 {
@@ -670,7 +690,7 @@ where
     match catch_unwind(AssertUnwindSafe(|| Sender::<T, _>::io(ScriptedWrite(st.clone()), max))) {
         Err(_) => outs.push("panic".into()),
         Ok(mut sender) => {
-            for spec in specs.iter() {
+            for (mi, spec) in specs.iter().enumerate() {
                 let r = catch_unwind(AssertUnwindSafe(|| {
                     let g = match sender.alloc() {
                         Ok(g) => g,
@@ -697,6 +717,12 @@ where
                         Ok(g) => g,
                         Err(e) => return emplace_err_s(&e),
                     };
+                    // an in-place edit through the guard (DerefMut) before the message is sent: what is sent is the
+                    // message as it stands when send() is called
+                    if let Some(Some(op)) = edits.get(mi) {
+                        // (an operation that panics — an index out of range — panics before it changes anything)
+                        let _ = catch_unwind(AssertUnwindSafe(|| (&mut *g).hop(op)));
+                    }
                     // SendGuard derefs (shared and mutable) to the message that was just constructed
                     let sz = (*g).size();
                     if (&mut *g).size() != sz || (&mut *g).as_bytes().len() < sz {
@@ -734,9 +760,9 @@ where
     let max = parse_usize(args[0], "max_msg_len")?;
     let wscript = parse_script(args[1], 'a', true)?;
     let fscript = parse_flush_script(args[2])?;
-    let specs = parse_inits(&args[3..])?;
+    let (specs, edits) = parse_msgs(&args[3..])?;
     let limit = 64 * specs.len() + wscript.len() + fscript.len() + 16;
-    Ok(asend_case::<T>(max, wscript, fscript, &specs, limit))
+    Ok(asend_case::<T>(max, wscript, fscript, &specs, &edits, limit))
 }
 
 fn asend_case<T: Probe + ?Sized>(
@@ -744,6 +770,7 @@ fn asend_case<T: Probe + ?Sized>(
     wscript: VecDeque<Dir>,
     fscript: VecDeque<FlushDir>,
     specs: &[Spec],
+    edits: &Edits,
     limit: usize,
 ) -> String
 where
@@ -756,7 +783,7 @@ where
     match catch_unwind(AssertUnwindSafe(|| AsyncSender::<T, _>::io(ScriptedAsyncWrite(st.clone()), max))) {
         Err(_) => outs.push("panic".into()),
         Ok(mut sender) => {
-            for spec in specs.iter() {
+            for (mi, spec) in specs.iter().enumerate() {
                 st.borrow_mut().events.clear();
                 // None = poll budget used up
                 let r = catch_unwind(AssertUnwindSafe(|| -> Option<String> {
@@ -784,6 +811,10 @@ where
                         Ok(g) => g,
                         Err(e) => return Some(emplace_err_s(&e)),
                     };
+                    if let Some(Some(op)) = edits.get(mi) {
+                        // (an operation that panics — an index out of range — panics before it changes anything)
+                        let _ = catch_unwind(AssertUnwindSafe(|| (&mut *g).hop(op)));
+                    }
                     let sz = (*g).size();
                     if (&mut *g).size() != sz || (&mut *g).as_bytes().len() < sz {
                         return Some("guard-deref-mismatch".into());
